@@ -244,7 +244,8 @@ def ob_loop_shared():
 # ------------------------------------------------------------------ refusal
 @obligation("load/refuses_other_parameters",
             desc="load_partial_results: stored parameters equal (also when only rep_max differs) -> the stored results; different value / "
-                 "different unpack index / different keys -> ValueError (not swallowed); missing file (IOError) -> None; no filename -> None")
+                 "different unpack index / different keys / array parameters of another length or entry -> ValueError (not "
+                 "swallowed); every load on one saver object is checked, not only the first; missing file (IOError) -> None; no filename -> None")
 def ob_refusal():
     def body(c, it):
         from pyphysim.simulations.runner import SimulationResultsSaver
@@ -260,13 +261,17 @@ def ob_refusal():
             p = SimulationParameters.create(d)
             p.set_unpack_parameter(unpack)
             return p.get_unpacked_params_list()
-        base = {"SNR": np.array([0, 5, 10]), "M": 4, "rep_max": 100}
+        base = {"SNR": np.array([0, 5, 10]), "M": 4, "rep_max": 100, "taps": np.array([1.0, 0.5, 0.25])}
         cur = mk(base)[1]
         cases = [("same", mk(base)[1], "ok"), ("only rep_max differs", mk(dict(base, rep_max=7))[1], "ok"),
                  ("fixed value differs", mk(dict(base, M=16))[1], "ValueError"),
                  ("other variation of the same grid", mk(base)[2], "ValueError"),
                  ("other grid values", mk(dict(base, SNR=np.array([0, 6, 10])))[1], "ValueError"),
-                 ("extra key", mk(dict(base, extra=1))[1], "ValueError")]
+                 ("extra key", mk(dict(base, extra=1))[1], "ValueError"),
+                 ("fixed array parameter of another length", mk(dict(base, taps=np.array([1.0, 0.5])))[1], "ValueError"),
+                 ("fixed array parameter with another entry", mk(dict(base, taps=np.array([1.0, 0.5, 0.125])))[1], "ValueError"),
+                 # the same combination saved under a longer grid is the same combination: accepted
+                 ("longer grid, same value at this index", mk(dict(base, SNR=np.array([0, 5, 10, 15])))[1], "ok")]
         for label, stored, want in cases:
             sv = SimulationResultsSaver()
             sv.set_results_filename("res")
@@ -299,6 +304,25 @@ def ob_refusal():
             goals.append(Goal("a non-IOError is not swallowed", isinstance(pr.exc, EOFError)))
         sv2 = SimulationResultsSaver()
         goals.append(Goal("no results filename -> None", it.call(it.getattr(sv2, "load_partial_results"), [cur]) is None))
+        # EVERY load on one saver is checked, not only the first: a matching file for one combination, then files saved for other
+        # parameters for the next combinations (e.g. the grid was refined between the runs)
+        sv3 = SimulationResultsSaver()
+        sv3.set_results_filename("res")
+        sv3.results.set_parameters(cur._original_sim_params)
+        plist = mk(base)
+        other = mk(dict(base, SNR=np.array([0, 2, 4])))
+        seq = [(plist[0], mk(base)[0], "ok"), (plist[1], other[1], "ValueError"), (plist[2], mk(base)[2], "ok"),
+               (plist[1], mk(dict(base, M=8))[1], "ValueError")]
+        for k, (now, stored, want) in enumerate(seq):
+            st = SimulationResults()
+            st.set_parameters(stored)
+            st.current_rep = 3
+            it.models["pyphysim.simulations.results:SimulationResults.load_from_file"] = lambda interp, fn, st=st: st
+            try:
+                got = it.call(it.getattr(sv3, "load_partial_results"), [now])
+                goals.append(Goal("load %d on the same saver: accepted" % k, want == "ok" and got is st))
+            except PyRaise as pr:
+                goals.append(Goal("load %d on the same saver: refused with ValueError" % k, want == "ValueError" and isinstance(pr.exc, ValueError)))
         return goals
     return verify(body, check_side=False)
 
